@@ -77,17 +77,8 @@ fn zdt(m: &str, a: &Value) -> Option<Value> {
     })
 }
 
-fn f10(a: &Value) -> TemporalResult<[FiniteF64; 10]> {
-    let v = a["f"].as_array().expect("f: 10 numbers");
-    let mut out = [FiniteF64::from(0i8); 10];
-    for i in 0..10 { out[i] = a_ff(&v[i])?; }
-    Ok(out)
-}
-fn fn_(a: &Value, n: usize) -> TemporalResult<Vec<FiniteF64>> {
-    let v = a["f"].as_array().expect("f: numbers");
-    assert!(v.len() == n);
-    v.iter().map(a_ff).collect()
-}
+fn fn_(a: &Value, n: usize) -> TemporalResult<Vec<FiniteF64>> { f_array(a, "f", n).into_iter().map(FiniteF64::try_from).collect() }
+fn f10(a: &Value) -> TemporalResult<Vec<FiniteF64>> { fn_(a, 10) }
 fn a_tdur(v: &Value) -> TemporalResult<TimeDuration> {
     let f = fn_(&json!({"f": v}), 6)?;
     TimeDuration::new(f[0], f[1], f[2], f[3], f[4], f[5])
@@ -113,7 +104,7 @@ fn dur(m: &str, a: &Value) -> Option<Value> {
         "compare_with_provider" => run(|| d()?.compare_with_provider(&a_dur(&a["other"])?, a_relto(&a["rel"])?, &p), |o| p_ord(*o)),
         "total_with_provider" => run(|| d()?.total_with_provider(unit_name(js::s(a, "unit")), a_relto(&a["rel"])?, &p), |f| j_f64(f.as_inner())),
         "new" => run(|| { let f = f10(a)?; Duration::new(f[0], f[1], f[2], f[3], f[4], f[5], f[6], f[7], f[8], f[9]) }, j_dur),
-        "from_day_and_time" => run(|| Ok(Duration::from_day_and_time(a_ff(&a["day"])?, &a_tdur(&a["time"])?)), j_dur),
+        "from_day_and_time" => run(|| Ok(Duration::from_day_and_time(FiniteF64::try_from(f_scalar(a, "day"))?, &a_tdur(&a["time"])?)), j_dur),
         "from_partial_duration" => run(|| Duration::from_partial_duration(a_pdur(&a["partial"])?), j_dur),
         "is_time_within_range" => run(|| Ok(d()?.is_time_within_range()), jb),
         "time" => run(|| Ok(*d()?.time()), j_tdur),
